@@ -305,3 +305,11 @@ def quat_log_relations(ctx, sign):
                 rels += [sN - 2 * S1 * sw, cN - (1 - 2 * S1 * S1)]
                 elim += [sN, cN]
     return rels, elim
+
+
+def no_downcast_ob(H, ctx, name, key, replay):
+    """float64 data of the caller must not be pushed through a lower-precision (or integer) cast inside the library: invisible over
+    the reals, so the engine records such casts (ctx.downcasts) and the harness states their absence as an obligation; `replay`
+    demonstrates the loss of precision on the real code before anything is reported."""
+    dc = getattr(ctx, 'downcasts', [])
+    return H.prove(name + '/no-precision-reducing-cast', [], z3.BoolVal(not dc), replay=(lambda model: (lambda r: (r[0], '%s; recorded cast(s): %s' % (r[1], dc[:2])))(replay(model))), key=key)
